@@ -1575,6 +1575,165 @@ pub fn mutate(doc: &mut Doc, m: &str, rng: &mut Rng) -> bool {
     }
 }
 
+// ------------------------------------------------------------------------------------------------
+// Inherited-field type matrix: enumerated (not sampled) parent type × child type of one inherited field
+// ------------------------------------------------------------------------------------------------
+//
+// Fixed hierarchy: `interface Base`, `interface Derived implements Base`,
+// `type Leaf implements Derived & Base`, unrelated `type Other`, a root with one edge to each.  One
+// field (`theEdge` / `theProp`) is declared with type P in the parent and re-declared with type C in
+// the child; everything else in the document is valid, so the inherited-field type rule decides.
+
+const MATRIX_VERTICES: [&str; 4] = ["Base", "Derived", "Leaf", "Other"];
+
+/// Where the matrix field is introduced (with P) and where it is re-declared (with C).
+#[derive(Clone, Copy, PartialEq, Debug)]
+pub enum MatrixHolder {
+    /// introduced in `Derived` (interface), re-declared in `Leaf` (object): one parent/child pair
+    IfaceToObject,
+    /// introduced in `Base`, re-declared in the interface `Derived`; `Leaf` repeats `Derived`'s version
+    /// (pairs Derived/Base and Leaf/Base carry P → C, Leaf/Derived is C → C)
+    IfaceToIface,
+    /// introduced in `Base`, repeated unchanged by `Derived`, re-declared in `Leaf`
+    /// (P → C is checked against both ancestors of `Leaf`)
+    ThroughIface,
+}
+
+/// every type over `base` with list depth ≤ `max_depth` and every combination of non-null flags
+fn all_shapes(base: &str, max_depth: usize) -> Vec<PTy> {
+    let mut out = vec![];
+    for d in 0..=max_depth {
+        for bits in 0..(1u32 << (d + 1)) {
+            // bit 0: the named (innermost) level; bit k: the k-th list level around it
+            let mut t = PTy::named(base, bits & 1 == 1);
+            for lv in 1..=d {
+                t = PTy::list(t, (bits >> lv) & 1 == 1);
+            }
+            out.push(t);
+        }
+    }
+    out
+}
+
+/// the relation of the child's named type to the parent's, in the fixed hierarchy (closed form)
+fn matrix_relation(parent: &str, child: &str) -> &'static str {
+    match (parent, child) {
+        (p, c) if p == c => "same",
+        ("Base", "Derived") | ("Derived", "Leaf") => "direct-subtype",
+        ("Base", "Leaf") => "indirect-subtype",
+        ("Derived", "Base") | ("Leaf", "Derived") | ("Leaf", "Base") => "supertype",
+        _ => "unrelated",
+    }
+}
+
+fn flags_outermost_first(t: &PTy) -> Vec<bool> {
+    let mut v = vec![];
+    let mut cur = t;
+    loop {
+        v.push(cur.non_null());
+        match cur {
+            PTy::Named(..) => return v,
+            PTy::List(i, _) => cur = i,
+        }
+    }
+}
+
+/// closed-form verdict of the matrix cell (independent of `rule_violations`): the named type is kept or
+/// narrowed, the list structure is the same, and no level goes from non-null to nullable
+fn matrix_cell_legal(p: &PTy, c: &PTy) -> bool {
+    let base_ok = matches!(matrix_relation(p.base(), c.base()), "same" | "direct-subtype" | "indirect-subtype");
+    let (pf, cf) = (flags_outermost_first(p), flags_outermost_first(c));
+    base_ok && pf.len() == cf.len() && pf.iter().zip(&cf).all(|(p, c)| !*p || *c)
+}
+
+pub fn matrix_doc(holder: MatrixHolder, fname: &str, p: &PTy, c: &PTy) -> Doc {
+    let keep = |n: &str| Field { name: n.to_string(), ty: PTy::named("String", false), args: vec![] };
+    let m = |ty: &PTy| Field { name: fname.to_string(), ty: ty.clone(), args: vec![] };
+    let edge = |n: &str, ty: PTy| Field { name: n.to_string(), ty, args: vec![] };
+    let (in_base, in_derived, in_leaf): (Option<&PTy>, &PTy, &PTy) = match holder {
+        MatrixHolder::IfaceToObject => (None, p, c),
+        MatrixHolder::IfaceToIface => (Some(p), c, c),
+        MatrixHolder::ThroughIface => (Some(p), p, c),
+    };
+    let mut base_fields = vec![keep("field")];
+    if let Some(ty) = in_base {
+        base_fields.push(m(ty));
+    }
+    let mut doc: Doc = vec![Def::Schema("RootSchemaQuery".into())];
+    for (n, _) in PRELUDE {
+        doc.push(Def::Directive(n.to_string()));
+    }
+    doc.push(Def::Type(TypeDef {
+        name: "RootSchemaQuery".into(),
+        is_interface: false,
+        implements: vec![],
+        fields: vec![
+            edge("Base", PTy::named("Base", false)),
+            edge("Derived", PTy::named("Derived", false)),
+            edge("Leaf", PTy::list(PTy::named("Leaf", true), false)),
+            edge("Other", PTy::list(PTy::named("Other", true), true)),
+        ],
+    }));
+    doc.push(Def::Type(TypeDef { name: "Base".into(), is_interface: true, implements: vec![], fields: base_fields }));
+    doc.push(Def::Type(TypeDef {
+        name: "Derived".into(),
+        is_interface: true,
+        implements: vec!["Base".into()],
+        fields: vec![keep("field"), m(in_derived)],
+    }));
+    doc.push(Def::Type(TypeDef {
+        name: "Leaf".into(),
+        is_interface: false,
+        implements: vec!["Derived".into(), "Base".into()],
+        fields: vec![keep("field"), m(in_leaf)],
+    }));
+    doc.push(Def::Type(TypeDef { name: "Other".into(), is_interface: false, implements: vec![], fields: vec![keep("x")] }));
+    doc
+}
+
+/// The whole matrix as cases tagged `nt:inherit-matrix`.  Edges: every ordered pair of the four vertex
+/// types (same / direct / indirect subtype / supertype / unrelated) × every shape of depth ≤ 1 on each
+/// side.  Properties: same scalar / different scalar × every shape of depth ≤ `prop_depth` on each side.
+fn gen_inherit_matrix(holders: &[MatrixHolder], prop_depth: usize) -> Vec<Case> {
+    let mut out = vec![];
+    let mut push = |holder: MatrixHolder, kind: &str, fname: &str, p: &PTy, c: &PTy| {
+        let doc = matrix_doc(holder, fname, p, c);
+        let legal = matrix_cell_legal(p, c);
+        // the generator's promise: nothing but the inherited-field type rule can be violated, and the
+        // independent rule checker agrees with the closed-form verdict of the cell
+        let violated = rule_violations(&doc);
+        let expected: BTreeSet<&'static str> = if legal { BTreeSet::new() } else { ["inherited-fields-only-narrowed"].into() };
+        assert!(violated == expected && undocumented(&doc).is_none(), "inherit-matrix cell {holder:?} {} -> {}: rules {violated:?}", p.display(), c.display());
+        let rel = if kind == "edge" {
+            format!("im:rel:{}", matrix_relation(p.base(), c.base()))
+        } else {
+            format!("im:rel:{}", if p.base() == c.base() { "same-scalar" } else { "different-scalar" })
+        };
+        let lists = format!("im:lists:{}-to-{}", p.depth(), c.depth());
+        let tags = ["inherit-matrix", "nt:inherit-matrix", if legal { "im:legal" } else { "im:illegal" }, &format!("im:{kind}"), &rel, &lists];
+        out.push(Case::new(Sexp::call("schema-new", vec![doc_to_sexp(&doc)]), &tags));
+    };
+    for holder in holders {
+        for pb in MATRIX_VERTICES {
+            for cb in MATRIX_VERTICES {
+                for p in all_shapes(pb, 1) {
+                    for c in all_shapes(cb, 1) {
+                        push(*holder, "edge", "theEdge", &p, &c);
+                    }
+                }
+            }
+        }
+        for (pb, cb) in [("Int", "Int"), ("Int", "String"), ("ID", "String"), ("Float", "Int")] {
+            for p in all_shapes(pb, prop_depth) {
+                for c in all_shapes(cb, prop_depth) {
+                    push(*holder, "prop", "theProp", &p, &c);
+                }
+            }
+        }
+    }
+    out
+}
+
 fn has_inheritance(doc: &Doc) -> bool {
     types(doc).iter().any(|t| t.implements.iter().any(|i| type_of(doc, i).is_some_and(|d| !d.fields.is_empty())))
 }
@@ -1586,10 +1745,17 @@ impl Prop for C19 {
         "C19"
     }
     fn rule(&self) -> &'static str {
-        "requests are (schema-new <doc>): an abstract schema document rendered to SDL text for the real Schema::parse and interpreted directly by the Lean model. Valid stream: generated valid schemas (2-6 vertex types besides the root, interfaces with transitively closed implements incl. chains, properties of every built-in scalar and list shape up to depth 3, edges incl. self-edges and list edges, parameterised edges with/without defaults, inherited fields narrowed in nullability / edge target / widened parameter types, the directive prelude, custom directives, custom scalars, schema block first/middle/last, shuffled definitions). Malformed stream: 45 mutations (each documented rule violated, each panic trigger, duplicates of types/fields/implements/parameters) applied singly to several bases and in all ordered pairs. A case is distinct by its request text; it is non-trivial when the document has an interface with fields and an implementer (the inheritance rules are exercised) or carries a mutation. Oracle on the implementation: no panic; accept iff an independent checker of the documented rules (harness, not derived from the Rust code) finds no violated rule (silent on unsupported definitions and on duplicate parameter names, which the documented rules do not mention)."
+        "requests are (schema-new <doc>): an abstract schema document rendered to SDL text for the real Schema::parse and interpreted directly by the Lean model. Valid stream: generated valid schemas (2-6 vertex types besides the root, interfaces with transitively closed implements incl. chains, properties of every built-in scalar and list shape up to depth 3, edges incl. self-edges and list edges, parameterised edges with/without defaults, inherited fields narrowed in nullability / edge target / widened parameter types, the directive prelude, custom directives, custom scalars, schema block first/middle/last, shuffled definitions). Inherited-field type matrix (tag nt:inherit-matrix; enumerated, not sampled, no randomness): in the fixed hierarchy interface Base, interface Derived implements Base, type Leaf implements Derived & Base, unrelated type Other, one field is declared with type P in the parent and re-declared with type C in the child, the rest of the document being valid so that the inherited-field type rule alone decides; edge fields: P and C over every ordered pair of the four vertex types (same, direct subtype, indirect subtype, supertype, unrelated) x non-list/list on each side incl. mismatches x every non-null flag combination at every level on each side (16 x 6 x 6 cells); property fields: scalar pairs Int/Int, Int/String, ID/String, Float/Int x every shape of list depth <= 1 (quick) or <= 2 (thorough) on each side with every flag combination; each cell for the parent/child placements Derived(interface)->Leaf(object) and Base(interface)->Derived(interface, repeated by Leaf), thorough also Base->Leaf through an unchanged Derived; the generator asserts that the independent rule checker finds exactly {} or {inherited-fields-only-narrowed} and agrees with the closed-form verdict of the cell. Malformed stream: 45 mutations (each documented rule violated, each panic trigger, duplicates of types/fields/implements/parameters) applied singly to several bases and in all ordered pairs. A case is distinct by its request text; it is non-trivial when the document has an interface with fields and an implementer (the inheritance rules are exercised), is a cell of the inherited-field type matrix, or carries a mutation. Oracle on the implementation: no panic; accept iff an independent checker of the documented rules (harness, not derived from the Rust code) finds no violated rule (silent on unsupported definitions and on duplicate parameter names, which the documented rules do not mention)."
     }
     fn generate(&self, tier: Tier, rng: &mut Rng) -> Vec<Case> {
         let mut out = vec![];
+        // the enumerated inherited-field type matrix consumes no randomness: the sampled streams below
+        // are the same with and without it
+        out.extend(if tier == Tier::Quick {
+            gen_inherit_matrix(&[MatrixHolder::IfaceToObject, MatrixHolder::IfaceToIface], 1)
+        } else {
+            gen_inherit_matrix(&[MatrixHolder::IfaceToObject, MatrixHolder::IfaceToIface, MatrixHolder::ThroughIface], 2)
+        });
         let (n_valid, n_bases, n_pair_bases) = if tier == Tier::Quick { (150, 4, 1) } else { (2500, 30, 6) };
         for _ in 0..n_valid {
             let rich = rng.chance(1, 2);
@@ -1679,6 +1845,9 @@ impl Prop for C19 {
             "valid_stream": count("valid"),
             "single_mutants": count("mutant"),
             "mutant_pairs": count("mutant-pair"),
+            "inherit_matrix": count("inherit-matrix"),
+            "inherit_matrix_legal_cells": count("im:legal"),
+            "inherit_matrix_illegal_cells": count("im:illegal"),
             "accepted": count("answer:ok"),
             "rejected": count("answer:err"),
             "panicked": count("answer:panic"),
